@@ -491,6 +491,19 @@ pub proof fn lemma_char_pos_mono(c: Seq<char>, i: int, j: int)
         lemma_encode_nonempty(c.subrange(i, j));
     }
 }
+/// every character encodes to at least one byte
+pub proof fn lemma_chars_le_bytes(cs: Seq<char>, n: int)
+    requires 0 <= n <= cs.len(),
+    ensures n <= char_byte_pos(cs, n),
+    decreases n,
+{
+    if n > 0 {
+        lemma_chars_le_bytes(cs, n - 1);
+        lemma_char_pos_mono(cs, n - 1, n);
+    } else {
+        lemma_char_pos_mono(cs, 0, 0);
+    }
+}
 pub proof fn lemma_encode_nonempty(c: Seq<char>)
     requires c.len() > 0,
     ensures encode_utf8(c).len() >= c.len(),
